@@ -25,7 +25,7 @@ RULE = ("track histories over add_notes(content form, value) / add_notes(None, v
         ">= 2 bars, contains a refusal or a range error, or a rest with an instrument attached; a chord list with nesting or a "
         "split across a bar line; a composition with >= 2 tracks and a partial selection."
         " Also: every single-value fill of a track bar followed by three more items; re-attaching another instrument mid-history; an out-of-range note at every position of every content form (incl. containers edited after they were built); from_chords with a tuning attached; compositions with 'tight' tracks that refuse a quarter. from_chords with every instrument kind and with generic instruments narrowed by set_range (the first out-of-range chord raises the range error and is not placed); objects shared between the tracks of a composition are found by identity. Composition equality follows the contents (equal tracks: equal; one entry different or one track less: unequal). Rests written as empty containers through add_notes and + with every instrument kind; != asked both ways round; trailing empty bars are not counted.")
-ASSUMPTIONS = ["Composition defines no equality: only 'equals itself, differs from different content' is asserted",
+ASSUMPTIONS = ["composition equality follows the track lists (equal tracks in the same order); repaired in the repository, see KNOWN_FINDINGS.txt",
                "add_bar of a partially filled bar in the middle of a track is not generated",
                "from_chords items may be longer than a bar (they cross several bar lines; repaired in the repository, see KNOWN_FINDINGS.txt)",
                "with an instrument attached, content is given as strings, Notes, lists of those or NoteContainers"]
